@@ -14,7 +14,7 @@
    SetWalkProofs.v proves that on encodings the walkers return the tree answers of SetOps.v. *)
 From Coq Require Import List NArith ZArith Bool.
 Import ListNotations.
-From JB Require Import Constants Bytes Utf8 Num Value Codec JsonText Dispatch Walk Iter Builder.
+From JB Require Import Constants Bytes Utf8 Num Value Codec JsonText Dispatch Walk Iter Builder BufSt.
 Open Scope N_scope.
 
 (* (JEntry, &[u8]) with the derived PartialEq *)
@@ -61,20 +61,19 @@ Definition single_item (bs : list N) (hdr : N) : res ikey :=
 
 Definition raw_entry (k : ikey) : entry := ERaw (fst k) (snd k).
 
-(* ---- array_distinct_jsonb ---- *)
-Definition array_distinct_b (bs buf : list N) : res (list N) :=
-  match read_u32 bs 0 with
-  | None => Err EOther
-  | Some hdr =>
-      do es <- (if hdr_type hdr =? ARRAY_CONTAINER_TAG then
-                  iterate_array bs hdr
-                    (fun (st : list ikey * list entry) j p =>
-                       if iset_mem (j, p) (fst st) then Ok (inl st)
-                       else Ok (inl ((j, p) :: fst st, snd st ++ [ERaw j p])))
-                    (fun st => Ok (snd st)) ([], [])
-                else do k <- single_item bs hdr; Ok [raw_entry k]);
-      Ok (build_arr_into buf es)
-  end.
+(* ---- array_distinct_jsonb ----  the caller's buffer is state (BufSt.v): reads and the iterator are `spure`, the one
+   write is builder.build_into(buf) at the end *)
+Definition array_distinct_b_st (bs : list N) : stm unit :=
+  sdo hdr <- spure (of_option EOther (read_u32 bs 0));
+  sdo es <- spure (if hdr_type hdr =? ARRAY_CONTAINER_TAG then
+                     iterate_array bs hdr
+                       (fun (st : list ikey * list entry) j p =>
+                          if iset_mem (j, p) (fst st) then Ok (inl st)
+                          else Ok (inl ((j, p) :: fst st, snd st ++ [ERaw j p])))
+                       (fun st => Ok (snd st)) ([], [])
+                   else do k <- single_item bs hdr; Ok [raw_entry k]);
+  swrite (fun buf => build_arr_into buf es).
+Definition array_distinct_b (bs buf : list N) : res (list N) := view (array_distinct_b_st bs buf).
 
 (* the count map of the second argument (array_intersection_jsonb, array_except_jsonb) *)
 Definition count_items (bs : list N) (hdr : N) : res (list (ikey * N)) :=
@@ -83,38 +82,38 @@ Definition count_items (bs : list N) (hdr : N) : res (list (ikey * N)) :=
   else do k <- single_item bs hdr; Ok [(k, 1)].
 
 (* ---- array_intersection_jsonb ---- *)
-Definition array_intersection_b (bs1 bs2 buf : list N) : res (list N) :=
-  match read_u32 bs1 0 with None => Err EOther | Some h1 =>
-  match read_u32 bs2 0 with None => Err EOther | Some h2 =>
-  do m <- count_items bs2 h2;
-  do es <- (if hdr_type h1 =? ARRAY_CONTAINER_TAG then
-              iterate_array bs1 h1
-                (fun (st : list (ikey * N) * list entry) j p =>
-                   match imap_take (j, p) (fst st) with
-                   | Some m' => Ok (inl (m', snd st ++ [ERaw j p]))
-                   | None => Ok (inl st)
-                   end)
-                (fun st => Ok (snd st)) (m, [])
-            else do k <- single_item bs1 h1; Ok (if imap_has k m then [raw_entry k] else []));
-  Ok (build_arr_into buf es)
-  end end.
+Definition array_intersection_b_st (bs1 bs2 : list N) : stm unit :=
+  sdo h1 <- spure (of_option EOther (read_u32 bs1 0));
+  sdo h2 <- spure (of_option EOther (read_u32 bs2 0));
+  sdo m <- spure (count_items bs2 h2);
+  sdo es <- spure (if hdr_type h1 =? ARRAY_CONTAINER_TAG then
+                     iterate_array bs1 h1
+                       (fun (st : list (ikey * N) * list entry) j p =>
+                          match imap_take (j, p) (fst st) with
+                          | Some m' => Ok (inl (m', snd st ++ [ERaw j p]))
+                          | None => Ok (inl st)
+                          end)
+                       (fun st => Ok (snd st)) (m, [])
+                   else do k <- single_item bs1 h1; Ok (if imap_has k m then [raw_entry k] else []));
+  swrite (fun buf => build_arr_into buf es).
+Definition array_intersection_b (bs1 bs2 buf : list N) : res (list N) := view (array_intersection_b_st bs1 bs2 buf).
 
 (* ---- array_except_jsonb ---- *)
-Definition array_except_b (bs1 bs2 buf : list N) : res (list N) :=
-  match read_u32 bs1 0 with None => Err EOther | Some h1 =>
-  match read_u32 bs2 0 with None => Err EOther | Some h2 =>
-  do m <- count_items bs2 h2;
-  do es <- (if hdr_type h1 =? ARRAY_CONTAINER_TAG then
-              iterate_array bs1 h1
-                (fun (st : list (ikey * N) * list entry) j p =>
-                   match imap_take (j, p) (fst st) with
-                   | Some m' => Ok (inl (m', snd st))
-                   | None => Ok (inl (fst st, snd st ++ [ERaw j p]))
-                   end)
-                (fun st => Ok (snd st)) (m, [])
-            else do k <- single_item bs1 h1; Ok (if imap_has k m then [] else [raw_entry k]));
-  Ok (build_arr_into buf es)
-  end end.
+Definition array_except_b_st (bs1 bs2 : list N) : stm unit :=
+  sdo h1 <- spure (of_option EOther (read_u32 bs1 0));
+  sdo h2 <- spure (of_option EOther (read_u32 bs2 0));
+  sdo m <- spure (count_items bs2 h2);
+  sdo es <- spure (if hdr_type h1 =? ARRAY_CONTAINER_TAG then
+                     iterate_array bs1 h1
+                       (fun (st : list (ikey * N) * list entry) j p =>
+                          match imap_take (j, p) (fst st) with
+                          | Some m' => Ok (inl (m', snd st))
+                          | None => Ok (inl (fst st, snd st ++ [ERaw j p]))
+                          end)
+                       (fun st => Ok (snd st)) (m, [])
+                   else do k <- single_item bs1 h1; Ok (if imap_has k m then [] else [raw_entry k]));
+  swrite (fun buf => build_arr_into buf es).
+Definition array_except_b (bs1 bs2 buf : list N) : res (list N) := view (array_except_b_st bs1 bs2 buf).
 
 (* ---- array_overlap_jsonb ---- *)
 Definition array_overlap_b (bs1 bs2 : list N) : res bool :=
@@ -133,11 +132,14 @@ Definition array_overlap_b (bs1 bs2 : list N) : res bool :=
 Definition as_jsonb (bs : list N) : res (list N) :=
   if is_jsonb bs then Ok bs else do v <- parse_value bs; Ok (to_vec v).
 
-Definition array_distinct_w (bs buf : list N) : res (list N) :=
-  do b <- as_jsonb bs; array_distinct_b b buf.
-Definition array_intersection_w (l r buf : list N) : res (list N) :=
-  do a <- as_jsonb l; do b <- as_jsonb r; array_intersection_b a b buf.
-Definition array_except_w (l r buf : list N) : res (list N) :=
-  do a <- as_jsonb l; do b <- as_jsonb r; array_except_b a b buf.
+Definition array_distinct_st (bs : list N) : stm unit :=
+  sdo b <- spure (as_jsonb bs); array_distinct_b_st b.
+Definition array_intersection_st (l r : list N) : stm unit :=
+  sdo a <- spure (as_jsonb l); sdo b <- spure (as_jsonb r); array_intersection_b_st a b.
+Definition array_except_st (l r : list N) : stm unit :=
+  sdo a <- spure (as_jsonb l); sdo b <- spure (as_jsonb r); array_except_b_st a b.
+Definition array_distinct_w (bs buf : list N) : res (list N) := view (array_distinct_st bs buf).
+Definition array_intersection_w (l r buf : list N) : res (list N) := view (array_intersection_st l r buf).
+Definition array_except_w (l r buf : list N) : res (list N) := view (array_except_st l r buf).
 Definition array_overlap_w (l r : list N) : res bool :=
   do a <- as_jsonb l; do b <- as_jsonb r; array_overlap_b a b.
